@@ -1083,7 +1083,7 @@ fn content_with_crc_high(base: &[u8], want: u8) -> Vec<u8> {
 }
 
 /// search a wrong password whose decrypted check byte collides (or not) with the expected one
-fn wrong_password(blob: &[u8], right: &[u8], expect: u8, collide: bool, seed: u64) -> Option<Vec<u8>> {
+pub fn wrong_password(blob: &[u8], right: &[u8], expect: u8, collide: bool, seed: u64) -> Option<Vec<u8>> {
     let mut r = Rng::new(seed);
     for _ in 0..4000 {
         let cand = r.rbytes(1, 6);
